@@ -122,9 +122,23 @@ static Reg r_parse("c13_parse", [](const Args& a) {
       else if (f == "Utility.ParseLine4") { bool r = Utility::ParseLine(s, k, v, '=', '%'); (void)r; }
       else if (f == "Utility.trim") { std::string r = Utility::trim(s); (void)r; }
       else if (f == "Utility.valb") { bool r = Utility::val<bool>(s); (void)r; }
+      else if (f == "Utility.valf") { float r = Utility::val<float>(s); x = r; }
+      else if (f == "Utility.vall") { long double r = Utility::val<long double>(s); x = double(r); }
+      else if (f == "Utility.lookup") { int r = Utility::lookup(s2, s.empty() ? '\0' : s[0]); i1 = r; }
+      else if (f == "Utility.lookupc") { int r = Utility::lookup(s2.c_str(), s.empty() ? '\0' : s[0]); i1 = r; }
+      else if (f == "Utility.readarray") {            // binary image of doubles, as the coefficient files are read: first byte = number of elements asked for
+        std::istringstream is(s.size() > 1 ? s.substr(1) : std::string(), std::ios::binary); std::vector<double> arr(s.empty() ? 0 : size_t((unsigned char)s[0]) % 9, 7.5e77);
+        Fin fin{[&] { for (double t : arr) if (t != 7.5e77) x = t; }};
+        if (!arr.empty()) {
+          Utility::readarray<double, double, false>(is, arr);
+          // what was read is written back byte for byte (writearray is the inverse; NaN payloads included)
+          std::ostringstream os(std::ios::binary); Utility::writearray<double, double, false>(os, arr.data(), arr.size());
+          if (os.str() != s.substr(1, 8 * arr.size())) bad("array-roundtrip", "Utility::writearray(readarray(bytes)) differs from the bytes read");
+        } }
+      else if (f == "MGRS.Decode") { std::string gz = SS, bl = SS, ea = SS, no = SS; Fin fin{[&] { if (gz != SS || bl != SS || ea != SS || no != SS) k = gz + bl + ea + no; }}; MGRS::Decode(s, gz, bl, ea, no); }
       else throw std::logic_error("parser"); });
     if (pass == 0) { exc = e; val = hx(x); }
-    bool parseline = f.compare(0, 17, "Utility.ParseLine") == 0;
+    bool parseline = f.compare(0, 17, "Utility.ParseLine") == 0 || f == "Utility.readarray";
     // (the two passes differ in their boolean arguments, so each pass is judged on its own: outputs changed by a pass that threw)
     if (!e.empty())
       touched = touched || x != 1.5e77 || y != 2.5e77 || i1 != SI || i2 != SI + 1 || i3 != SI + 2 || fl != (pass ? DMS::LATITUDE : DMS::NUMBER) || (!parseline && (k != SS || v != SS));
@@ -263,7 +277,17 @@ inline void gen_text(Rng& r, bool thorough) {
     {"Utility.ParseLine4", {"key=value % comment", "=", "%", "a=b=c", "", " = "}, "kev #=\t%\r\n", false},
     {"Utility.trim", {"  a  ", "", "   ", "\t\n"}, " a\t\n\xff", false},
     {"Utility.valb", {"true", "false", "1", "0", "yes", "t", "T", "nil", "#f", ""}, "truefalsyno01#TFN ", false},
+    {"Utility.valf", {"1.5", "nan", "inf", "1e39", "1e-46", "3.4028235e38", "", "x"}, "0123456789.eE+-naif x", false},
+    {"Utility.vall", {"1.5", "nan", "inf", "1e4933", "1e-4951", "", "x"}, "0123456789.eE+-naif x", false},
+    {"Utility.lookup", {"a", "A", "z", "", "0", "\xff"}, "abcABC019 \xff", true},
+    {"Utility.lookupc", {"a", "A", "z", "", "0"}, "abcABC019 ", true},
+    {"MGRS.Decode", {"32TNK0000000000", "32TNK", "32T", "BAN0000", "A", "INVALID", "inv", "63155000019S", "32TNK000000000", "32TNK00A00", "", "60XWG9999999999", "0TNK", "32"}, "0123456789ABCDEFGHJKLMNPQRSTUVWXYZIO inv", false},
   };
+  // binary array reads from streams that end early (the primitive under the coefficient-file readers)
+  for (int it = 0; it < (thorough ? 400 : 60); ++it) {
+    int want = r.irange(0, 8), have = r.irange(0, 8 * 9); std::string s(1, char(want)); for (int i = 0; i < have; ++i) s += char(r.next());
+    stratum(have >= 8 * want ? "readarray-complete" : "readarray-truncated"); runx("c13_parse", {"Utility.readarray", hs(s)});
+  }
   for (auto& p : ps) {
     for (auto& s : p.seeds) { stratum("parser-seed"); Args a{p.f, hs(s)}; if (p.two) a.push_back(hs(r.pick(p.seeds))); runx("c13_parse", a); }
     for (int it = 0; it < (thorough ? 2500 : 250); ++it) {
